@@ -139,6 +139,27 @@ theorem C01_no_package_state : Gen.Source.packageVars = [
     nowhere for an earlier or a concurrent call to leave anything. -/
 theorem C01_no_client_state : Gen.Source.receiverWrites = [] := by decide
 
+/-- ... and nothing outside the call either: the wall clock, the process zone, the environment and the runtime are
+    read only here (regenerated list of every `time.Now / Since / Until`, `time.Local`, `os.Getenv…`, `os.Hostname`,
+    `runtime.*`, `math/rand` in the four packages): the driver's deadlines, `DateTimeNow`, and the process zone in
+    which decoded civil times are placed (C13) - no request builder, no guard and no reply interpreter looks at the
+    time of day, the date or the environment. -/
+theorem C01_ambient_reads : Gen.Source.ambientReads = ["types/date.go:startOfDay: time.Local",
+    "types/datetime.go:DateTimeNow: time.Now",
+    "types/datetime.go:DateTime.UnmarshalJSON: time.Local",
+    "types/datetime.go:DateTime.UnmarshalUT0311L0x: time.Local",
+    "types/systemtime.go:TimeFromString: time.Local",
+    "types/systemtime.go:SystemTime.UnmarshalUT0311L0x: time.Local",
+    "uhppote/UT0311.go:ut0311.Broadcast: time.Now",
+    "uhppote/UT0311.go:ut0311.BroadcastTo: time.Now",
+    "uhppote/UT0311.go:ut0311.SendUDP: time.Now",
+    "uhppote/UT0311.go:ut0311.SendTCP: time.Now",
+    "uhppote/device.go:NewDevice: time.Local",
+    "uhppote/get_device.go:uhppote.GetDevices: time.Local",
+    "uhppote/get_device.go:uhppote.GetDevice: time.Local",
+    "uhppote/get_status.go:uhppote.GetStatus: time.Local",
+    "uhppote/listen.go:uhppote.Listen: time.Local"] := by decide
+
 /-- below the driver interface: with the uses of the request parameter regenerated from
     uhppote/UT0311.go (passed to the socket write and to the debug dump, `len`, single-byte reads —
     never assigned through, sliced into another name or handed to anything else) and the body of
